@@ -14,6 +14,7 @@ import mirq
 from mirq import show, access_path, AnchorMissing, const_of, walk
 from rulekit import Table
 from rules import common as C
+from rules import vocab as V
 
 TABLE = Table('C19')
 NOT_DECIDED = 'time, HTTP, sockets; what reqwest does on the wire.'
@@ -106,8 +107,13 @@ def r3(cx, rec):
     # field <- key agreement in the PeerAddr records (adaptor chain or explicit loop; fields normalised over the list element)
     lf = [f for f in F.user_fns() if f.locals[0]['ty'] == 'std::vec::Vec<tracker_resp::PeerAddr>' and f.argc >= 1 and 'BValue' in f.locals[f.argc]['ty']]
     L = C.one(lf, 'peer list builder (Vec<BValue> -> Vec<PeerAddr>)')
+    PA = 'tracker_resp::PeerAddr'
+    f_ip = V.field(F, PA, r'^std::string::String$', 'peer address host')
+    f_id = V.field(F, PA, r'^\[u8; (HASH_SIZE|PEER_ID_SIZE)\]$', 'peer address id')
+    f_port = V.field(F, PA, r'^u64$', 'peer address port')
     C.check_list_records(F, rec, L, r'^tracker_resp::PeerAddr$',
-                         {'ip': ('ip', 'ByteStr'), 'peer_id': ('peer id', 'ByteStr'), 'port': ('port', 'Int')}, 'peeraddr')
+                         {f_ip: ('ip', 'ByteStr'), f_id: ('peer id', 'ByteStr'), f_port: ('port', 'Int')}, 'peeraddr',
+                         roles={f_ip: 'ip', f_id: 'peer_id', f_port: 'port'})
     # peers(): map over self.peers producing (ip + ":" + port, peer_id)
     pf = [f for f in F.user_fns() if f.self_ty == 'tracker_resp::TrackerResp' and f.name == 'peers']
     P = C.one(pf, 'TrackerResp::peers')
@@ -139,12 +145,13 @@ def r3(cx, rec):
 def joiners(F):
     """{fn_path: job_access_path} for functions that await a JoinHandle stored in a field"""
     out = {}
+    jobs = {fl['name'] for a in F.adts.values() if a['kind'] == 'Struct' for fl in a['variants'][0]['fields'] if 'JoinHandle' in fl['ty']}
     for f in F.user_fns():
         for sb in f.switches():
             e, ts, o = f.cond(sb)
             if e[0] == 'discr' and 'Poll' in e[2] and e[1][0] == 'call' and e[1][1] == 'poll':
                 p = access_path(e[1][2][0]) or ''
-                if '.job' in p or p.endswith('job'):
+                if set(re.split(r'[^A-Za-z0-9_]+', p)) & jobs:
                     out[F.owner_fn(f).path] = p
     return out
 
@@ -168,9 +175,10 @@ def sends_after(F, f, bb, enum_rx):
 def r4(cx, rec):
     F = cx.F
     J = joiners(F)
+    jobf = V.field(F, 'session::Job', r'JoinHandle', 'join handle of a manager-owned task')
     inst = [
-        ('tracker', r'^commands::TrackerCmd$', 'tracker.job'),
-        ('extractor', r'^commands::ExtractorCmd$', 'extractor.job'),
+        ('tracker', r'^commands::TrackerCmd$', '%s.%s' % (V.session_tracker(F), jobf)),
+        ('extractor', r'^commands::ExtractorCmd$', '%s.%s' % (V.session_extractor(F), jobf)),
     ]
     for label, enum_rx, jobpath in inst:
         jf = [p for p, jp in J.items() if jobpath in jp]
@@ -208,7 +216,8 @@ def r4(cx, rec):
                          'message: the manager blocks and serves no peer, timer or listener until the task ends; once the bounded '
                          'channel fills both sides are deadlocked' % (label, v))
     # peers: kill_peer only from the KillReq arm; KillReq is the task's last message
-    pj = [p for p, jp in J.items() if 'peer' in jp or jp.endswith('.job') and 'tracker' not in jp and 'extractor' not in jp and 'view' not in jp]
+    others = (V.session_tracker(F), V.session_extractor(F), V.field(F, 'session::Session', r'session::View', 'view task'))
+    pj = [p for p, jp in J.items() if not any(('.%s.' % o) in ('.' + jp + '.') for o in others)]
     pj = [p for p in pj if p in C.peer_removers(F)]
     rec.need(len(pj) == 1, 'peer-joiner', 'session', None, 'peer task joiner not found uniquely: %s' % pj)
     pf, psbs = C.peer_cmd_dispatch(F)
@@ -286,7 +295,7 @@ def r5(cx, rec):
     okx = False
     for bb in ext:
         e = f.expr_call(bb)
-        if (access_path(e[2][0]) or '').endswith('candidates') and any(x[0] == 'call' and x[1].endswith('TrackerResp::peers') for x in walk(e[2][1])):
+        if (access_path(e[2][0]) or '').split('.')[-1] == V.session_candidates(F) and any(x[0] == 'call' and x[1].endswith('TrackerResp::peers') for x in walk(e[2][1])):
             okx = True
             rec.site(f, bb, 'candidates extended with resp.peers()')
     rec.need(okx, 'peers-not-queued', f, tgt, 'the peers of a good reply are not added to the candidates')
@@ -295,7 +304,7 @@ def r5(cx, rec):
     for bb, t in C.local_calls(F, f):
         if bb in region and 'spawn' in t:
             S = F.body(t)
-            pops = [b2 for b2 in mirq.real_calls(S) if S.expr_call(b2)[4].get('name') == 'pop' and (access_path(S.expr_call(b2)[2][0]) or '').endswith('candidates')]
+            pops = [b2 for b2 in mirq.real_calls(S) if S.expr_call(b2)[4].get('name') == 'pop' and (access_path(S.expr_call(b2)[2][0]) or '').split('.')[-1] == V.session_candidates(F)]
             sp = [b2 for b2 in mirq.real_calls(S) if (S.blocks[b2]['t'].get('callee') or '').endswith('tokio::spawn')]
             rec.site(S, None, 'spawner pops a candidate (%d) and spawns a task (%d)' % (len(pops), len(sp)))
             rec.need(bool(pops) and bool(sp), 'spawner-shape', S, None, 'spawner does not pop a candidate and spawn a task')
@@ -308,3 +317,40 @@ def r5(cx, rec):
                     if any((body.blocks[b4]['t'].get('callee') or '').endswith('TcpStream::connect') for b4 in mirq.real_calls(body)):
                         ok_c = True
             rec.need(ok_c, 'spawner-entry', S, None, 'the spawned task does not run the entry point that connects to the candidate')
+
+
+@TABLE.rule('7', 'K4', 'the manager keeps serving: handling a tracker command (good reply or failure) cannot panic -- shared panic-site '
+            'audit of the manager restricted to the TrackerCmd handler', floor=1)
+def r7(cx, rec):
+    from rules import C12
+    F = cx.F
+    hs = [f for f, sb in C.fns_switching_on(F, r'^commands::TrackerCmd$', min_arms=2) if f.path.startswith('session::')]
+    H = C.one(list({f.path: f for f in hs}.values()), 'manager function dispatching on TrackerCmd')
+    keep = re.compile(r'^session::')
+    skip = {p for p in F.fns if not keep.search(p)}
+    a = C.Audit(F, [F.owner_fn(H).path], C12.ALLOW, skip_fns=skip)
+    fns, n = a.run(rec)
+    rec.site(H, None, '%d functions reachable from the TrackerCmd handler, %d panic-capable sites' % (len(fns), n))
+
+
+@TABLE.rule('8', 'K3', 'the tracker task hands every reply / failure to the manager with an awaited send: a full queue delays the task, it '
+            'never drops the message', floor=1)
+def r8(cx, rec):
+    F = cx.F
+    n = 0
+    for f in F.user_fns():
+        if not mirq.agg_sites(f, r'^commands::TrackerCmd$') and not any(
+                x[0] == 'agg' and x[2] == 'commands::TrackerCmd' for bb in mirq.real_calls(f) for x in walk(f.expr_call(bb), inl=False)):
+            pass
+        for bb in mirq.real_calls(f):
+            t = f.blocks[bb]['t']
+            cal = t.get('callee') or ''
+            ga = ''.join(t.get('gargs') or [])
+            if 'commands::TrackerCmd' in ga and re.search(r'mpsc::(bounded::)?Sender::<T>::(try_send|send_timeout|blocking_send)$', cal) and not f.path.startswith('session::'):
+                rec.violation('tracker-cmd-may-be-dropped/' + F.owner_fn(f).path, f, bb,
+                              'the tracker task sends to the manager with %s: when the queue is full the reply (the only good one the task '
+                              'ever produces) is lost' % cal.split('::')[-1])
+            if 'commands::TrackerCmd' in ga and re.search(r'mpsc::(bounded::)?Sender::<T>::send$', cal) and not f.path.startswith('session::'):
+                n += 1
+                rec.site(f, bb, 'awaited send of a TrackerCmd')
+    rec.need(n >= 1, 'tracker-cmd-not-sent', 'tracker_client', None, 'the tracker task never sends a TrackerCmd to the manager')
